@@ -52,8 +52,10 @@ func (idx *index) insert(ctx context.Context, p pointer, persist bool) error {
 		} else if !idx.beforeFirst(p.End) {
 			i, overlap := idx.unprotectedSearch(p.TimeRange)
 			if overlap {
+				// read before the lock is released: another writer may move the slice
+				existing := idx.mu.pointers[i].TimeRange
 				idx.mu.Unlock()
-				return span.Error(NewRangeWriteConflictError(p.TimeRange, idx.mu.pointers[i].TimeRange))
+				return span.Error(NewRangeWriteConflictError(p.TimeRange, existing))
 			}
 			insertAt = i + 1
 		}
@@ -130,11 +132,13 @@ func (idx *index) update(ctx context.Context, p pointer, persist bool) error {
 	overlapsWithNext := updateAt != len(ptrs)-1 && ptrs[updateAt+1].OverlapsWith(p.TimeRange)
 	overlapsWithPrev := updateAt != 0 && ptrs[updateAt-1].OverlapsWith(p.TimeRange)
 	if overlapsWithPrev {
+		existing := ptrs[updateAt-1].TimeRange
 		idx.mu.Unlock()
-		return span.Error(NewRangeWriteConflictError(p.TimeRange, ptrs[updateAt-1].TimeRange))
+		return span.Error(NewRangeWriteConflictError(p.TimeRange, existing))
 	} else if overlapsWithNext {
+		existing := ptrs[updateAt+1].TimeRange
 		idx.mu.Unlock()
-		return span.Error(NewRangeWriteConflictError(p.TimeRange, ptrs[updateAt+1].TimeRange))
+		return span.Error(NewRangeWriteConflictError(p.TimeRange, existing))
 	} else {
 		sizeDelta := int64(p.size) - int64(oldP.size)
 		idx.mu.pointers[updateAt] = p
